@@ -18,6 +18,12 @@ import TraitsVerif.Lemmas.ObsAtomic
 import TraitsVerif.Lemmas.ObsMutate
 import TraitsVerif.Lemmas.ObsQuiet
 import TraitsVerif.Lemmas.ObsInvList
+import TraitsVerif.Lemmas.ObsInvSetItems
+import TraitsVerif.Lemmas.ObsInvDictItems
+import TraitsVerif.Lemmas.ObsInvAddTrait
+import TraitsVerif.Lemmas.ObsInvContDefault
+import TraitsVerif.Lemmas.ObsSource
+import TraitsVerif.Lemmas.NotifierSource
 namespace TraitsVerif.Props.C08
 open TraitsVerif TraitsVerif.Model.Obs
 
@@ -43,6 +49,57 @@ required): a property of the heap alone. -/
 theorem C08_add_ok_iff (h : Heap) (k : HKey) (g : Graph) (x : W) (H : Hooks) :
     (addRemove h k false true g x H).err = none ↔ walkOk h true g x = true :=
   ⟨fun hok => (addRemove_add h k g true x H hok).1, addRemove_add_ok h k g true x H⟩
+
+open TraitsVerif.Model.ObsL in
+/-- SOURCE TIE.  The registration these theorems speak about is the interpreted source: the ObsL term
+`Generated.observeProg`, regenerated on every run by harness/translate/obsl.py from the text of
+traits/observation/_observe.py, run on an outermost `add_or_remove_notifiers(object=x, graph=g, …)`
+(for every heap, graph, handler key and well-formed hooks; fuel `need g` = three calls per level),
+ends with the hooks and the exception of `Model.Obs.addRemove`. -/
+theorem C08_registration_is_source (h : Heap) (k : HKey) (g : Graph) (rm : Bool) (x : W) (H : Hooks) (hw : WF H)
+    (n : Nat) (hn : need g ≤ n) :
+    run h Generated.observeProg n (.fn "add_or_remove_notifiers" (ownArgs x (.plain g) k rm)) (H, []) =
+      (((addRemove h k rm true g x H).H, [[]]), flowOf (addRemove h k rm true g x H).err) := by
+  have := run_arn_outer h k g rm true x H n hn
+  simp only [gvOf, if_true] at this
+  rw [this, finishS_eq_finish rm H _ (walk_did h k g rm true x H [] hw)]
+  rfl
+
+open TraitsVerif.Model.ObsL in
+/-- `C08_add_spec` about the INTERPRETED SOURCE: when the translated registration returns normally, every
+count has grown by exactly the from-scratch items (`hookList`, one per path), e.g. the user
+notifier's reference count by `reach`; and it returns normally iff the walk of the heap meets no
+failing `iter_observables` / `iter_objects`. -/
+theorem C08_add_spec_source (h : Heap) (k : HKey) (g : Graph) (x : W) (H : Hooks) (hw : WF H)
+    (n : Nat) (hn : need g ≤ n) :
+    ((run h Generated.observeProg n (.fn "add_or_remove_notifiers" (ownArgs x (.plain g) k false)) (H, [])).2 = .next
+      ↔ walkOk h true g x = true) ∧
+    ((run h Generated.observeProg n (.fn "add_or_remove_notifiers" (ownArgs x (.plain g) k false)) (H, [])).2 = .next →
+      ∀ o q, cnt (run h Generated.observeProg n
+        (.fn "add_or_remove_notifiers" (ownArgs x (.plain g) k false)) (H, [])).1.1 o q =
+          cnt H o q + cntItems (hookList h k true g x) o q) := by
+  rw [C08_registration_is_source h k g false x H hw n hn]
+  have hflow : flowOf (addRemove h k false true g x H).err = .next ↔ (addRemove h k false true g x H).err = none := by
+    cases (addRemove h k false true g x H).err <;> simp [flowOf]
+  refine ⟨?_, ?_⟩
+  · simp only [hflow]
+    exact C08_add_ok_iff h k g x H
+  · intro hr
+    exact C08_add_spec h k g x H (hflow.1 hr)
+
+open TraitsVerif.Model.NotL in
+/-- SOURCE TIE for the per-observable de-duplication C08 rests on ("calls the handler exactly once"): the
+user notifier found by `add_to` is the first one `equals` accepts, and `equals` is handler `==`, target
+`is`, dispatcher `==` as written in the source (rows regenerated by harness/translate/notl.py); the
+equality of observer graphs used for maintainers (`Graph.beq`: equal nodes, children compared as
+sets) is the interpretation (`NotL.geq`) of the rows of `ObserverGraph.__eq__`, and `__hash__` hashes the
+same fields with the children as a frozenset (text tie). -/
+theorem C08_dedup_is_source (eqo : Id → Id → Bool) (k : HKey) (ns : List Notifier) (a b : NKey) :
+    runMethod NKey.equals Generated.userAddProg (.user k) ns = some (userAdd k ns, none) ∧
+    rowsHold eqo (equalsRows a) a b = some (NKey.equals a b) ∧
+    (∀ g g' : Graph, (decodeGraphRows Generated.graphEqRows).map (fun m => geq m g g') = some (Graph.beq g g')) ∧
+    Generated.graphHashFields = ["type:name", "node", "children:frozenset"] :=
+  ⟨userAdd_is_source k ns, equals_is_source eqo a b, graph_beq_is_source, rfl⟩
 
 /-- After `observe` on objects without hooks, the hooks are the from-scratch
 specification of the single registration (the refinement invariant is established). -/
@@ -138,8 +195,13 @@ theorem C08_fires_iff_reachable_false : ¬ C08_fires_iff_reachable := by
 (`nsrItems` / `nsrLive`: below the current, removed and added items the maintained
 sub-graphs never come back to the list itself, which also makes the iteration over the
 LIVE notifier list equal to one over a copy).
-NOT covered (stay correspondence-checked only): dict / set mutations, `add_trait`,
-container defaults, `filtered` nodes, the silent default of F80. -/
+`SetCore` (Lemmas/ObsInvSetItems.lean) and `DictCore` (Lemmas/ObsInvDictItems.lean) are the same for a
+mutation of an observed set / dict.
+`AddCore` (Lemmas/ObsInvAddTrait.lean) is the fragment for `add_trait` of a new name.
+Container defaults (`List` / `Dict` / `Set` traits read for the first time) are covered by
+`C08_default_materialise_container_partial` (Lemmas/ObsInvContDefault.lean: allocation of an unreferenced cell).
+NOT covered (stay correspondence-checked only): the arms of
+`clear` on an EMPTY container (no event, only the heap cell changes), `del obj.trait` (composed by the driver), `filtered` nodes, the silent default of F80. -/
 
 /-- Assignment `o.n = v` to a materialised trait: the hooks are again exactly the
 from-scratch hooks of the new heap, and nothing raises.  Series and parallel
@@ -197,6 +259,83 @@ theorem C08_hooks_eq_reach_partial_slice (E : Env) (st : St) (regs : List Reg) (
     (mutate E st (.listSlice c i j xs)).err = none :=
   listSlice_preserves E st regs c i j xs items hij hne hinv core
 
+/-- Mutations of an observed SET container — `add`, `discard` / `remove`, `clear` — preserve
+the invariant and raise nothing (`SetCore`, Lemmas/ObsInvSetItems.lean, is the analogue of
+`ListCore`); `add` of a present element and `discard` of an absent one change nothing and
+deliver nothing.  Items may be shared with other containers and registrations, graphs may
+branch.  `items.Nodup`: the items of a set cell are distinct (Model/Heap.lean), an invariant of
+the three operations (`nodup_insertSorted`, `nodup_filter_ne`). -/
+theorem C08_hooks_eq_reach_partial_set (E : Env) (st : St) (regs : List Reg) (c : Id) (items : List Id)
+    (hinv : HooksEqReach st.h st.H regs) :
+    (∀ x, x ∉ items → SetCore E st regs c items (insertSorted x items) (.set [] [x]) →
+      HooksEqReach (mutate E st (.setAdd c x)).st.h (mutate E st (.setAdd c x)).st.H regs ∧
+      (mutate E st (.setAdd c x)).err = none) ∧
+    (∀ x, x ∈ items → items.Nodup → SetCore E st regs c items (items.filter (· != x)) (.set [x] []) →
+      HooksEqReach (mutate E st (.setDiscard c x)).st.h (mutate E st (.setDiscard c x)).st.H regs ∧
+      (mutate E st (.setDiscard c x)).err = none) ∧
+    (items.isEmpty = false → SetCore E st regs c items [] (.set items []) →
+      HooksEqReach (mutate E st (.setClear c)).st.h (mutate E st (.setClear c)).st.H regs ∧
+      (mutate E st (.setClear c)).err = none) ∧
+    (∀ x, st.h.get c = .set items → x ∈ items →
+      (mutate E st (.setAdd c x)).st = st ∧ (mutate E st (.setAdd c x)).delivered = [] ∧
+      (mutate E st (.setAdd c x)).err = none) ∧
+    (∀ x, st.h.get c = .set items → x ∉ items →
+      (mutate E st (.setDiscard c x)).st = st ∧ (mutate E st (.setDiscard c x)).delivered = [] ∧
+      (mutate E st (.setDiscard c x)).err = none) :=
+  ⟨fun x hx core => setAdd_preserves E st regs c x items hx hinv core,
+   fun x hx hnd core => setDiscard_preserves E st regs c x items hx hnd hinv core,
+   fun hne core => setClear_preserves E st regs c items hne hinv core,
+   fun x hc hx => setAdd_present E st c x items hc hx,
+   fun x hc hx => setDiscard_absent E st c x items hc hx⟩
+
+/-- Mutations of an observed DICT container — `d[k] = x` for a new key and for an existing one
+(reported as old value removed + new value added), `del d[k]` / `pop`, `clear` — preserve the
+invariant and raise nothing (`DictCore`, Lemmas/ObsInvDictItems.lean, is the analogue of
+`ListCore`; the objects below a dict are its values).  The same object may sit under several
+keys: removed under one key it keeps the other keys' share of the reference counts.  Only the
+KEYS are distinct (`(d.map (·.1)).Nodup`, Model/Heap.lean; an invariant of the four operations:
+`dict_keys_nodup_append`, `dict_keys_overwrite`, `dict_keys_nodup_filter`). -/
+theorem C08_hooks_eq_reach_partial_dict (E : Env) (st : St) (regs : List Reg) (c : Id) (d : List (Key × Id))
+    (hinv : HooksEqReach st.h st.H regs) :
+    (∀ k x, d.find? (·.1 == k) = none → DictCore E st regs c d (d ++ [(k, x)]) (.dict [] [(k, x)]) →
+      HooksEqReach (mutate E st (.dictSet c k x)).st.h (mutate E st (.dictSet c k x)).st.H regs ∧
+      (mutate E st (.dictSet c k x)).err = none) ∧
+    (∀ k k' x y, d.find? (·.1 == k) = some (k', y) → (d.map (·.1)).Nodup →
+      DictCore E st regs c d (d.map (fun kv => if kv.1 == k then (k, x) else kv)) (.dict [(k, y)] [(k, x)]) →
+      HooksEqReach (mutate E st (.dictSet c k x)).st.h (mutate E st (.dictSet c k x)).st.H regs ∧
+      (mutate E st (.dictSet c k x)).err = none) ∧
+    (∀ k k' y, d.find? (·.1 == k) = some (k', y) → (d.map (·.1)).Nodup →
+      DictCore E st regs c d (d.filter (·.1 != k)) (.dict [(k, y)] []) →
+      HooksEqReach (mutate E st (.dictDel c k)).st.h (mutate E st (.dictDel c k)).st.H regs ∧
+      (mutate E st (.dictDel c k)).err = none) ∧
+    (d.isEmpty = false → DictCore E st regs c d [] (.dict d []) →
+      HooksEqReach (mutate E st (.dictClear c)).st.h (mutate E st (.dictClear c)).st.H regs ∧
+      (mutate E st (.dictClear c)).err = none) :=
+  ⟨fun k x hk core => dictSet_new_preserves E st regs c k x d hk hinv core,
+   fun k k' x y hk hnd core => dictSet_overwrite_preserves E st regs c k k' x y d hk hnd hinv core,
+   fun k k' y hk hnd core => dictDel_preserves E st regs c k k' y d hk hnd hinv core,
+   fun hne core => dictClear_preserves E st regs c d hne hinv core⟩
+
+/-- `o.add_trait(n, …)`.  For a NEW name the invariant is preserved and nothing raises: every
+path of a registration that reaches `o` at a `named n` node (necessarily an optional one, or the
+registration would have failed) has left a `trait_added` maintainer on `o.trait_added`; called with
+`new = n` it hooks exactly the own items of that node on `o.n` (user notifier if the node
+notifies, one maintainer per child), and nothing below, the new trait being absent from
+`__dict__` — which is what the from-scratch walk of the new heap adds (`add_dec`,
+Lemmas/ObsInvAddTrait.lean).  Any number of registrations, paths and handlers; users and
+maintainers observing `trait_added` itself are allowed (`AddCore.okNone`).  For an EXISTING name
+the hooks do not change, nothing is delivered, nothing raises. -/
+theorem C08_hooks_eq_reach_partial_add_trait (E : Env) (st : St) (regs : List Reg) (o : Id) (n : Name)
+    (tagged : Bool) (d : Dflt) (fs : List Field) :
+    (HooksEqReach st.h st.H regs → AddCore E st regs o n tagged d fs → findField fs n = none →
+      HooksEqReach (mutate E st (.addTrait o n tagged d)).st.h (mutate E st (.addTrait o n tagged d)).st.H regs ∧
+      (mutate E st (.addTrait o n tagged d)).err = none) ∧
+    (∀ f, st.h.get o = .inst fs → findField fs n = some f →
+      (mutate E st (.addTrait o n tagged d)).st.H = st.H ∧ (mutate E st (.addTrait o n tagged d)).delivered = [] ∧
+      (mutate E st (.addTrait o n tagged d)).err = none) :=
+  ⟨fun hinv core hn => addTrait_preserves E st regs o n tagged d fs hinv core hn,
+   fun f ho hf => addTrait_existing E st o n tagged d fs f ho hf⟩
+
 /-- A default materialised after registration (non-container default `d`, read of
 an unset trait) gets hooked by the maintainers — the invariant holds in the new
 heap — and delivers nothing to the user. -/
@@ -206,6 +345,30 @@ theorem C08_default_materialise_partial (E : Env) (st : St) (regs : List Reg) (o
     HooksEqReach (mutate E st (.read o n fresh)).st.h (mutate E st (.read o n fresh)).st.H regs ∧
     (mutate E st (.read o n fresh)).err = none ∧ (mutate E st (.read o n fresh)).delivered = [] :=
   read_preserves E st regs o n d fresh fs f hinv fr hunset hdflt
+
+/-- A CONTAINER default (`List` / `Dict` / `Set` trait never read: `default_value_for` builds a
+fresh empty container, cell `fresh`) materialised after registration gets hooked by the
+maintainers — an items node below the trait leaves its user notifier and item maintainers on the
+fresh container — the invariant holds in the new heap, nothing raises and nothing is delivered.
+`Unref st.h fresh` / `r.x ≠ fresh`: no cell refers to the fresh identity and it is no
+registration's root (then allocating it changes no from-scratch hook list, `alloc_preserves`);
+`fr` is the assignment fragment of `C08_hooks_eq_reach_partial` IN THE ALLOCATED HEAP for the value
+`.ref fresh`: the read is the assignment of an existing empty container to the unset trait. -/
+theorem C08_default_materialise_container_partial (E : Env) (st : St) (regs : List Reg) (o : Id) (n : Name)
+    (fresh : Id) (fs : List Field) (f : Field) (hinv : HooksEqReach st.h st.H regs)
+    (hu : Unref st.h fresh) (hroots : ∀ r ∈ regs, r.x ≠ fresh) (hunset : f.val = .unset) :
+    (f.dflt = .newList → SetFrag E ⟨st.h.upd fresh (.list []), st.H⟩ regs o n (.ref fresh) fs f →
+      HooksEqReach (mutate E st (.read o n fresh)).st.h (mutate E st (.read o n fresh)).st.H regs ∧
+      (mutate E st (.read o n fresh)).err = none ∧ (mutate E st (.read o n fresh)).delivered = []) ∧
+    (f.dflt = .newDict → SetFrag E ⟨st.h.upd fresh (.dict []), st.H⟩ regs o n (.ref fresh) fs f →
+      HooksEqReach (mutate E st (.read o n fresh)).st.h (mutate E st (.read o n fresh)).st.H regs ∧
+      (mutate E st (.read o n fresh)).err = none ∧ (mutate E st (.read o n fresh)).delivered = []) ∧
+    (f.dflt = .newSet → SetFrag E ⟨st.h.upd fresh (.set []), st.H⟩ regs o n (.ref fresh) fs f →
+      HooksEqReach (mutate E st (.read o n fresh)).st.h (mutate E st (.read o n fresh)).st.H regs ∧
+      (mutate E st (.read o n fresh)).err = none ∧ (mutate E st (.read o n fresh)).delivered = []) :=
+  ⟨fun hd fr => read_newList_preserves E st regs o n fresh fs f hinv hu hroots fr hunset hd,
+   fun hd fr => read_newDict_preserves E st regs o n fresh fs f hinv hu hroots fr hunset hd,
+   fun hd fr => read_newSet_preserves E st regs o n fresh fs f hinv hu hroots fr hunset hd⟩
 
 /-- "Exactly once iff reachable", on the proved fragment: an assignment that really
 changes the value (not prevented by `ctrait_prevent_event`) calls handler key `k`
@@ -436,5 +599,133 @@ example :
 /-- an all-quiet graph exists and `QuietInv` holds of the empty hooks -/
 example : (Graph.node (.named nChild false false) [.node (.named nValue false false) []]).quiet = true ∧
     QuietInv Hooks.empty f10Key := ⟨by decide, by intro o n hn; simp [Hooks.empty] at hn⟩
+
+/-! non-vacuity of `C08_hooks_eq_reach_partial_set`: `a.group = {b, c}`, `group.items.value`
+observed on `a` (state `SetWitness.sSt`, hypotheses `SetWitness.sCoreDiscard` / `sCoreAdd` /
+`sCoreClear` proved in Lemmas/ObsInvSetItems.lean) -/
+open SetWitness in
+/-- the theorem applies to `a.group.discard(b)` … -/
+example : HooksEqReach (mutate {} sSt (.setDiscard 100 1)).st.h (mutate {} sSt (.setDiscard 100 1)).st.H sRegs :=
+  ((C08_hooks_eq_reach_partial_set {} sSt sRegs 100 [1, 2]
+    (C08_observe_establishes sHeap sKey sGraph 0 (by decide))).2.1 1 (by decide) (by decide) sCoreDiscard).1
+
+open SetWitness in
+/-- … `b.value` is released and `c.value` stays hooked -/
+example : cnt sSt.H (.trait 1 nValue) (.user sKey) = 1 ∧
+    cnt (mutate {} sSt (.setDiscard 100 1)).st.H (.trait 1 nValue) (.user sKey) = 0 ∧
+    cnt (mutate {} sSt (.setDiscard 100 1)).st.H (.trait 2 nValue) (.user sKey) = 1 := by decide
+
+open SetWitness in
+/-- … and to `a.group.add(d)`: `d.value` gets hooked, and bumping it is delivered once -/
+example : HooksEqReach (mutate {} sSt (.setAdd 100 3)).st.h (mutate {} sSt (.setAdd 100 3)).st.H sRegs :=
+  ((C08_hooks_eq_reach_partial_set {} sSt sRegs 100 [1, 2]
+    (C08_observe_establishes sHeap sKey sGraph 0 (by decide))).1 3 (by decide) sCoreAdd).1
+
+open SetWitness in
+example : cnt sSt.H (.trait 3 nValue) (.user sKey) = 0 ∧
+    cnt (mutate {} sSt (.setAdd 100 3)).st.H (.trait 3 nValue) (.user sKey) = 1 ∧
+    (mutate {} (mutate {} sSt (.setAdd 100 3)).st (.setField 3 nValue (.int 8) 0)).delivered =
+      [.trait sKey 3 nValue (.int 7) (.int 8)] := by decide
+
+open SetWitness in
+/-- … and to `a.group.clear()`: everything below the set is released, one event is delivered -/
+example : HooksEqReach (mutate {} sSt (.setClear 100)).st.h (mutate {} sSt (.setClear 100)).st.H sRegs :=
+  ((C08_hooks_eq_reach_partial_set {} sSt sRegs 100 [1, 2]
+    (C08_observe_establishes sHeap sKey sGraph 0 (by decide))).2.2.1 (by decide) sCoreClear).1
+
+open SetWitness in
+example : cnt (mutate {} sSt (.setClear 100)).st.H (.trait 1 nValue) (.user sKey) = 0 ∧
+    cnt (mutate {} sSt (.setClear 100)).st.H (.trait 2 nValue) (.user sKey) = 0 ∧
+    (mutate {} sSt (.setClear 100)).delivered = [.set sKey 100 [1, 2] []] := by decide
+
+/-! non-vacuity of `C08_hooks_eq_reach_partial_dict`: `a.byname = {1: b, 2: b}` — the SAME object
+under two keys —, `byname.items.value` observed on `a` (state `DictWitness.dSt`, hypotheses
+`DictWitness.dCoreDel` / `dCoreOverwrite` / `dCoreNew` / `dCoreClear` proved in
+Lemmas/ObsInvDictItems.lean) -/
+open DictWitness in
+/-- the theorem applies to `del a.byname[1]` … -/
+example : HooksEqReach (mutate {} dSt (.dictDel 100 1)).st.h (mutate {} dSt (.dictDel 100 1)).st.H dRegs :=
+  ((C08_hooks_eq_reach_partial_dict {} dSt dRegs 100 [(1, 1), (2, 1)]
+    (C08_observe_establishes dHeap dKey dGraph 0 (by decide))).2.2.1 1 1 1 rfl (by decide) dCoreDel).1
+
+open DictWitness in
+/-- … the reference count on `b.value` goes 2 ↦ 1 (`b` is still there under key 2) and a later
+`b.value = 4` is delivered once -/
+example : cnt dSt.H (.trait 1 nValue) (.user dKey) = 2 ∧
+    cnt (mutate {} dSt (.dictDel 100 1)).st.H (.trait 1 nValue) (.user dKey) = 1 ∧
+    (mutate {} (mutate {} dSt (.dictDel 100 1)).st (.setField 1 nValue (.int 4) 0)).delivered =
+      [.trait dKey 1 nValue (.int 3) (.int 4)] := by decide
+
+open DictWitness in
+/-- … to `a.byname[2] = c` (existing key): `b.value` 2 ↦ 1, `c.value` 0 ↦ 1, one event `{2: b} → {2: c}` -/
+example : HooksEqReach (mutate {} dSt (.dictSet 100 2 2)).st.h (mutate {} dSt (.dictSet 100 2 2)).st.H dRegs :=
+  ((C08_hooks_eq_reach_partial_dict {} dSt dRegs 100 [(1, 1), (2, 1)]
+    (C08_observe_establishes dHeap dKey dGraph 0 (by decide))).2.1 2 2 2 1 rfl (by decide) dCoreOverwrite).1
+
+open DictWitness in
+example : cnt (mutate {} dSt (.dictSet 100 2 2)).st.H (.trait 1 nValue) (.user dKey) = 1 ∧
+    cnt (mutate {} dSt (.dictSet 100 2 2)).st.H (.trait 2 nValue) (.user dKey) = 1 ∧
+    (mutate {} dSt (.dictSet 100 2 2)).delivered = [.dict dKey 100 [(2, 1)] [(2, 2)]] := by decide
+
+open DictWitness in
+/-- … to `a.byname[3] = c` (new key): `c.value` gets hooked, `b.value` keeps its two references -/
+example : HooksEqReach (mutate {} dSt (.dictSet 100 3 2)).st.h (mutate {} dSt (.dictSet 100 3 2)).st.H dRegs :=
+  ((C08_hooks_eq_reach_partial_dict {} dSt dRegs 100 [(1, 1), (2, 1)]
+    (C08_observe_establishes dHeap dKey dGraph 0 (by decide))).1 3 2 rfl dCoreNew).1
+
+open DictWitness in
+example : cnt dSt.H (.trait 2 nValue) (.user dKey) = 0 ∧
+    cnt (mutate {} dSt (.dictSet 100 3 2)).st.H (.trait 2 nValue) (.user dKey) = 1 ∧
+    cnt (mutate {} dSt (.dictSet 100 3 2)).st.H (.trait 1 nValue) (.user dKey) = 2 := by decide
+
+open DictWitness in
+/-- … and to `a.byname.clear()`: both references to `b.value` are released -/
+example : HooksEqReach (mutate {} dSt (.dictClear 100)).st.h (mutate {} dSt (.dictClear 100)).st.H dRegs :=
+  ((C08_hooks_eq_reach_partial_dict {} dSt dRegs 100 [(1, 1), (2, 1)]
+    (C08_observe_establishes dHeap dKey dGraph 0 (by decide))).2.2.2 (by decide) dCoreClear).1
+
+open DictWitness in
+example : cnt (mutate {} dSt (.dictClear 100)).st.H (.trait 1 nValue) (.user dKey) = 0 ∧
+    (mutate {} dSt (.dictClear 100)).delivered = [.dict dKey 100 [(1, 1), (2, 1)] []] := by decide
+
+/-! non-vacuity of `C08_hooks_eq_reach_partial_add_trait`: `a.child = b`, `b` without a `value`
+trait, graph `child` → optional `value` → optional `child` observed on `a` (state
+`AddWitness.aSt`, hypotheses `AddWitness.aCore` proved in Lemmas/ObsInvAddTrait.lean) -/
+open AddWitness in
+/-- the theorem applies to `b.add_trait("value", …)` … -/
+example : HooksEqReach (mutate {} aSt (.addTrait 1 nValue false (.val (.int 0)))).st.h
+    (mutate {} aSt (.addTrait 1 nValue false (.val (.int 0)))).st.H aRegs :=
+  ((C08_hooks_eq_reach_partial_add_trait {} aSt aRegs 1 nValue false (.val (.int 0)) aFs).1
+    (C08_observe_establishes aHeap aKey aGraph 0 (by decide)) aCore rfl).1
+
+open AddWitness in
+/-- … `b.value` gets the user notifier and the maintainer for the link below it (nothing was
+there before), and a later `b.value = 4` is delivered to the handler -/
+example : cnt aSt.H (.trait 1 nValue) (.user aKey) = 0 ∧
+    cnt (mutate {} aSt (.addTrait 1 nValue false (.val (.int 0)))).st.H (.trait 1 nValue) (.user aKey) = 1 ∧
+    cnt (mutate {} aSt (.addTrait 1 nValue false (.val (.int 0)))).st.H (.trait 1 nValue)
+      (.maint .trait (.node (.named nChild true true) []) aKey) = 1 ∧
+    ((mutate {} (mutate {} aSt (.addTrait 1 nValue false (.val (.int 0)))).st
+      (.setField 1 nValue (.int 4) 0)).delivered.filter (fun d => d.key == aKey)).length = 1 := by decide
+
+/-! non-vacuity of `C08_default_materialise_container_partial`: `a.kids` a `List` trait never read,
+`kids.items.value` observed on `a` (state `ContDefaultWitness.cSt`; `cUnref`, `cFrag` proved in
+Lemmas/ObsInvContDefault.lean) -/
+open ContDefaultWitness in
+/-- the theorem applies to the first read of `a.kids` (fresh list = cell 100) … -/
+example : HooksEqReach (mutate {} cSt (.read 0 nKids 100)).st.h (mutate {} cSt (.read 0 nKids 100)).st.H cRegs :=
+  ((C08_default_materialise_container_partial {} cSt cRegs 0 nKids 100 cFs kidsF
+    (C08_observe_establishes cHeap cKey cGraph 0 (by decide)) cUnref
+    (by intro r hr; simp [cRegs] at hr; subst hr; decide) rfl).1 rfl cFrag).1
+
+open ContDefaultWitness in
+/-- … the fresh list carries the user notifier and the item maintainer, nothing was delivered,
+and a later `a.kids.append(b)` hooks `b.value` -/
+example : cnt (mutate {} cSt (.read 0 nKids 100)).st.H (.cont 100) (.user cKey) = 1 ∧
+    cnt (mutate {} cSt (.read 0 nKids 100)).st.H (.cont 100)
+      (.maint .list (.node (.named nValue true false) []) cKey) = 1 ∧
+    (mutate {} cSt (.read 0 nKids 100)).delivered = [] ∧
+    cnt (mutate {} (mutate {} cSt (.read 0 nKids 100)).st (.listAppend 100 1)).st.H (.trait 1 nValue) (.user cKey) = 1 := by
+  decide
 
 end TraitsVerif.Props.C08
